@@ -26,7 +26,9 @@ def _tree():
     from vf.fsmodel import FS
 
     fs = FS()
-    fs.dirs |= {SB, SB + "/dir", SB + "/dir/dir", "/out", "/out/dir"}
+    fs.dirs |= {SB, SB + "/dir", SB + "/dir/dir", "/out", "/out/dir", SB + "/dir-private", SB + "/dir.bak"}
+    fs.files[SB + "/dir-private/secret.oct.md"] = ["SIBLING-SECRET", 0o600]
+    fs.files[SB + "/dir.bak/f.oct.md"] = ["SIBLING-SECRET2", 0o600]
     for d in (SB, SB + "/dir", SB + "/dir/dir"):
         fs.files[d + "/f.oct.md"] = ["INSIDE", 0o644]
         fs.links[d + "/lnk_d"] = "/out"
@@ -218,12 +220,12 @@ def R_validate_tool_read(i0: int, i1: int, i2: int, absolute: bool) -> int:
     return HELD
 
 
-URI_SEGS = ["", "dir", "..", "lnk_d", "f.oct.md", "secret.oct.md", "lnk_f.oct.md", "."]
+URI_SEGS = ["", "dir", "..", "lnk_d", "f.oct.md", "secret.oct.md", "lnk_f.oct.md", ".", "dir-private", "dir.bak"]
 
 
 def U_source_uri(i0: int, i1: int, i2: int, leading_slash: bool) -> int:
     """
-    pre: 0 <= i0 <= 7 and 0 <= i1 <= 7 and 0 <= i2 <= 7
+    pre: 0 <= i0 <= 9 and 0 <= i1 <= 9 and 0 <= i2 <= 9
     post: _ != 0
     """
     # a vocabulary source URI never resolves outside its base directory
@@ -352,5 +354,5 @@ def obligations(tier):
     for api in ("atomic", "tool"):
         obs.append(xh_ob(PROP, f"W.write-confined[{api}]", _mk_write(api), timeout=1500, bound=bound, functions=["core.file_ops.atomic_write_octave" if api == "atomic" else "mcp.write.WriteTool.execute"], stubs=st, witnesses=[wit]))
     obs.append(xh_ob(PROP, "R.validate-tool-file_path-confined", R_validate_tool_read, timeout=1500, bound=bound, functions=["mcp.validate.ValidateTool.execute (file_path branch)"], stubs=st))
-    obs.append(xh_ob(PROP, "U.source-uri-confined", U_source_uri, timeout=900, bound="URIs of <= 3 segments from {dir .. symlink-to-dir file secret symlink-to-file .}, with and without leading slash", functions=["core.hydrator.validate_source_uri"], stubs=st))
+    obs.append(xh_ob(PROP, "U.source-uri-confined", U_source_uri, timeout=900, bound="URIs of <= 3 segments from {dir .. symlink-to-dir file secret symlink-to-file . sibling dirs whose names extend the base name (dir-private, dir.bak)}, with and without leading slash", functions=["core.hydrator.validate_source_uri"], stubs=st))
     return select(obs, tier)
